@@ -155,8 +155,14 @@ func (a *simapp) DeliverTx(req abci.RequestDeliverTx) (res abci.ResponseDeliverT
 		}
 		k := valPrefix + string(pk.Bytes())
 		if pw == 0 {
-			cur, ok := a.get(k)
-			if !ok || cur == nil {
+			// only a validator of the COMMITTED set can be removed (one added earlier in this same block is not yet
+			// known to the consensus engine: the update list would carry a removal of an unknown validator, which
+			// makes ApplyBlock fail and the node kill itself — an application bug, not under test)
+			cur, err := a.db.Get([]byte(k))
+			if err != nil {
+				panic(err)
+			}
+			if _, touched := a.pending[k]; cur == nil || touched {
 				res.Error = abci.StringError("cannot remove unknown validator")
 				return
 			}
